@@ -393,6 +393,11 @@ func (i *interpreter) checkFormat(format value, args []value) {
 		i.path.violation("assert", fmt.Sprintf("pos: format %q has %d verbs for %d arguments", f, verbs, len(args)), nil, i.stack())
 	}
 	for _, a := range args {
+		if bad := i.astIllFormed(a, map[*value]bool{}, 0); bad != "" {
+			i.path.violation("assert", "suggest: a syntax tree quoted in a diagnostic is not well-formed: "+bad, nil, i.stack())
+		}
+	}
+	for _, a := range args {
 		if it, ok := a.(iface); ok {
 			if it.t == nil {
 				i.path.violation("assert", "pos: a nil value is formatted into a diagnostic", nil, i.stack())
@@ -401,4 +406,119 @@ func (i *interpreter) checkFormat(format value, args []value) {
 			}
 		}
 	}
+}
+
+// astIllFormed walks the concretely built part of a go/ast tree (lazily
+// initialised input parts are well-formed by construction and skipped) and
+// returns a description of the first child that go/ast's own documentation
+// requires to be present but is nil, e.g. "go/ast.CallExpr.Args[0] is nil".
+func (i *interpreter) astIllFormed(v value, seen map[*value]bool, depth int) string {
+	if depth > 12 {
+		return ""
+	}
+	switch x := v.(type) {
+	case *lazyIface:
+		if x.resolved != nil {
+			return i.astIllFormed(*x.resolved, seen, depth)
+		}
+		return ""
+	case iface:
+		if x.t == nil || !strings.Contains(x.t.String(), "go/ast.") {
+			return ""
+		}
+		p, ok := x.v.(*value)
+		if !ok || p == nil {
+			return ""
+		}
+		return i.astNodeIllFormed(x.t, p, seen, depth)
+	}
+	return ""
+}
+
+func (i *interpreter) astNodeIllFormed(t types.Type, p *value, seen map[*value]bool, depth int) string {
+	if p == nil || seen[p] {
+		return ""
+	}
+	seen[p] = true
+	pt, ok := t.Underlying().(*types.Pointer)
+	if !ok {
+		return ""
+	}
+	named, _ := pt.Elem().(*types.Named)
+	st, ok := pt.Elem().Underlying().(*types.Struct)
+	if !ok || named == nil || named.Obj().Pkg() == nil || named.Obj().Pkg().Path() != "go/ast" {
+		return ""
+	}
+	fields, ok := (*p).(structure)
+	if !ok {
+		return "" // not materialised (lazy)
+	}
+	spec := i.program.Lazy
+	for k := 0; k < st.NumFields() && k < len(fields); k++ {
+		f := st.Field(k)
+		key := "go/ast." + named.Obj().Name() + "." + f.Name()
+		if spec != nil && (spec.AlwaysNil[key] || spec.Nullable[key]) {
+			// optional child: recurse only if present
+			if bad := i.astChild(key, f.Type(), fields[k], seen, depth, true); bad != "" {
+				return bad
+			}
+			continue
+		}
+		if bad := i.astChild(key, f.Type(), fields[k], seen, depth, false); bad != "" {
+			return bad
+		}
+	}
+	return ""
+}
+
+func (i *interpreter) astChild(key string, ft types.Type, v value, seen map[*value]bool, depth int, optional bool) string {
+	if _, pending := v.(lazyPending); pending {
+		return ""
+	}
+	if _, pending := v.(*lazyPending); pending {
+		return ""
+	}
+	switch u := ft.Underlying().(type) {
+	case *types.Interface:
+		if !strings.Contains(ft.String(), "go/ast.") {
+			return ""
+		}
+		switch x := v.(type) {
+		case iface:
+			if x.t == nil {
+				if optional {
+					return ""
+				}
+				return key + " is nil"
+			}
+			return i.astIllFormed(x, seen, depth+1)
+		case *lazyIface:
+			return i.astIllFormed(x, seen, depth+1)
+		}
+	case *types.Pointer:
+		n, _ := u.Elem().(*types.Named)
+		if n == nil || n.Obj().Pkg() == nil || n.Obj().Pkg().Path() != "go/ast" {
+			return ""
+		}
+		if p, ok := v.(*value); ok {
+			if p == nil {
+				if optional {
+					return ""
+				}
+				return key + " is nil"
+			}
+			return i.astNodeIllFormed(ft, p, seen, depth+1)
+		}
+	case *types.Slice:
+		sl, ok := v.([]value)
+		if !ok {
+			return ""
+		}
+		for k, e := range sl {
+			if bad := i.astChild(fmt.Sprintf("%s[%d]", key, k), u.Elem(), e, seen, depth, false); bad != "" {
+				return bad
+			}
+		}
+	}
+	return ""
 }
